@@ -484,6 +484,31 @@ theorem final_header_write_at_every_byte (api : Api) (o : WOpts) (roots : Option
     · right; right
       rw [himg']
       exact crash_before_datasize_on_disk api o roots H rest m hv2 (by omega)
+/-- (15) **The index write at every byte, under an index padding** (and without ZeroLengthSectionAsEOF): cut
+    after ANY `k` writes and `j` bytes, reopening succeeds with exactly the acknowledged blocks (nothing of the
+    index had reached the disk) or is refused with the payload window byte-for-byte intact. With an index
+    padding the recorded finding cannot occur. -/
+theorem index_write_at_every_byte_padded (api : Api) (o : WOpts) (roots : Option (List Cid)) (acked : List Block)
+    (ix : Index) (k j : Nat) (hpad : 0 < o.indexPad) (hz : o.zeroEOF = false)
+    (hwf : (CarHeader.mk roots 1).wf) (hmax : (encodeHeaderBody ⟨roots, 1⟩).length ≤ o.maxHeader)
+    (hmax32 : (encodeHeaderBody ⟨roots, 1⟩).length ≤ 32 * 2 ^ 20) (hlog : LogOK' acked) :
+    let F := o.filePrefix (zeros 40) ++ payload roots acked
+    let image := crashImage F (indexEvs (F.length + o.indexPad) ix) k j
+    (∃ s, (resume api o roots image).res = .ok s ∧ Inv o roots s acked ∧ s.closed = false ∧ s.finalized = false) ∨
+    ((∃ e, (resume api o roots image).res = .error e) ∧ (resume api o roots image).file.drop o.base = image.drop o.base) := by
+  intro F image
+  have hplen := o.filePrefix_length (zeros 40) (by simp [zeros])
+  rcases crash_images_of_the_index_write F o.indexPad ix k j with h | ⟨m, h⟩
+  · left
+    rw [show image = F from h]
+    exact crash_on_boundary api o roots acked hwf hmax hmax32 hlog
+  · right
+    have h5 := (crash_in_index_write_padded api o roots acked ((indexChunks ix).flatten.take m) hpad hwf hmax hmax32 hlog).1 hz
+    have himg : image = o.filePrefix (zeros 40) ++ (payload roots acked ++ (zeros o.indexPad ++ (indexChunks ix).flatten.take m)) := by
+      rw [show image = _ from h]; simp [F]
+    rw [himg]
+    refine ⟨h5.1, ?_⟩
+    rw [h5.2, List.drop_left' hplen]
 /-- Non-vacuity of (6)/(7): a concrete session, header cut at 37 and at 25 bytes. -/
 example : LayoutOK 0 0 60 ∧ (32 ≤ 37 ∧ 37 ≤ 40) ∧ (24 ≤ 25 ∧ 25 ≤ 32 ∧ 60 % 256 ^ (25 - 24) ≠ 0) := by
   refine ⟨⟨by decide, by decide, by decide⟩, by decide, by decide⟩
